@@ -988,6 +988,11 @@ theorem step_orig {Q : Nat → Nat → Nat → Nat → Prop} (ts : TS) (ev : TEv
     split
     · exact fire_orig _ _ h
     · exact h
+  | tickN now' k =>
+    simp only [step]
+    split
+    · exact fire_orig _ _ h
+    · exact h
   | ack s mid =>
     simp only [step]
     rcases hr : premove ts.pend s mid with ⟨_ | m, r⟩
@@ -1449,6 +1454,11 @@ theorem step_quiet (s mid : Nat) (ts : TS) (ev : TEv) (h : pc s mid ts.pend = 0)
     simp only [step, pc_pinsert, hm, if_false, h, txS]
     simp
   | tick now' =>
+    simp only [step]
+    split
+    · exact fire_quiet s mid _ { ts with now := now' } h
+    · exact ⟨rfl, h⟩
+  | tickN now' k =>
     simp only [step]
     split
     · exact fire_quiet s mid _ { ts with now := now' } h
